@@ -15,6 +15,7 @@ import os, sys, json, re, math, itertools
 import vcommon as V
 
 PROP = "coq/C12/Properties_C12.v"
+PROP_GEN = "coq/C12/Properties_C12_gen.v"     # theorems about coq/Gen/GenFootC12.v, regenerated from the binary on every run
 EXTRACT = "coq/C12/Extract_C12.v"
 DRIVER = "props/C12/driver.ml"
 PROGS = {"c12sim": ["props/C12/unit.cpp"]}
@@ -940,6 +941,110 @@ def tsan_part(run, r, tcases, rcases, d):
 
 
 # ------------------------------------------------------------------------------------------------
+# footprints derived from the implementation -> coq/Gen/GenFootC12.v (regenerated-table theorems)
+# ------------------------------------------------------------------------------------------------
+def coq_z(x):
+    return "(%d)%%Z" % x
+
+
+def coq_list(items):
+    return "[" + "; ".join(items) + "]"
+
+
+def coq_loc(tok):
+    w = tok.split(":")
+    return "(" + " ".join(w) + ")" if len(w) > 1 else w[0]
+
+
+def coq_fp(reads, writes):
+    return "(%s, %s)" % (coq_list([coq_loc(t) for t in reads]), coq_list([coq_loc(t) for t in writes]))
+
+
+def probe_scenario(c):
+    L = tcase_scenario(c, "perm")[:-1]
+    atom = 0
+    for zs in c["steps"][-1]["z"]:
+        for z in zs:
+            atom += 1
+            L.append("pos %d 0 0 %d" % (atom, z + 1000 + 7 * atom))
+    return L + ["footprints", "endcase %d" % c["id"]]
+
+
+def has_error_step(c):
+    # (also excluded as probes: a scripted force of exactly 0 - the task then writes nothing observable)
+    if c["use_script"] and any(f == 0 for _, f in c["script"]):
+        return True
+    return any(len(f) == len(c["vars"][v]["coeff"]) and not any(f) for st in c["steps"] for v, f in st["flags"])
+
+
+def derive_footprints(sim, cases, d):
+    """-> list of (case, t, flags per variable, comp fps, collect fps, bias fps) derived from the binary"""
+    cases = [c for c in cases if not has_error_step(c)]
+    scen = []
+    for c in cases:
+        scen += probe_scenario(c)
+    rc, out, err = run_batch(sim, scen, d)
+    by = split_cases(out)
+    res = []
+    for c in cases:
+        ls = by.get(c["id"])
+        if ls is None or "FPEND" not in ls:
+            res.append((c, None, None, None, None, None))
+            continue
+        cfg, steps = parse_steps(ls)
+        last = steps[-1]
+        flags = [[last["cvc"][("v%d" % v, i)][0] for i in range(len(x["coeff"]))] for v, x in enumerate(c["vars"])]
+        fps = {"comp": [], "collect": [], "bias": []}
+        for l in ls:
+            if l.startswith("FP "):
+                w = l.split()
+                kind = "bias" if w[1] == "script" else w[1]
+                W = [t for t in l.split(" W=")[1].split(" R=")[0].split(",") if t]
+                R = [t for t in l.split(" R=")[1].split(",") if t]
+                fps[kind].append((R, W))
+        res.append((c, len(c["steps"]) - 1, flags, fps["comp"], fps["collect"], fps["bias"]))
+    return res
+
+
+def write_gen_footprints(derived):
+    L = ["(* GENERATED by props/C12/check.py from the rebuilt binary (c12sim `footprints`); do not edit. *)",
+         "From Coq Require Import ZArith List Bool.", "From CV Require Import C12.SmpModel.", "Import ListNotations.", "",
+         "Definition gen_probes : list probe := ["]
+    rows = []
+    for c, t, flags, comp, coll, bias in derived:
+        if t is None:
+            continue
+        vs = coq_list(["mkVar %d %s [] %s" % (x["tsf"], coq_list(["true" if f else "false" for f in flags[v]]), coq_list([coq_z(q) for q in x["coeff"]]))
+                       for v, x in enumerate(c["vars"])])
+        bs = coq_list(["mkBias %d %s %s %s" % (x["tsf"], coq_list([str(v) for v in x["vars"]]), coq_z(x["k"]), coq_list([coq_z(q) for q in x["centers"]]))
+                       for x in c["biases"]])
+        sc = coq_list(["(%d, %s)" % (v, coq_z(f)) for v, f in c["script"]])
+        cfg = "(mkCfg %s %s %s %s %s)" % (vs, bs, "true" if c["use_script"] else "false", "true" if c["after"] else "false", sc)
+        rows.append("  mkProbe %s %d\n    %s\n    %s\n    %s" % (cfg, t, coq_list([coq_fp(*f) for f in comp]), coq_list([coq_fp(*f) for f in coll]),
+                                                                  coq_list([coq_fp(*f) for f in bias])))
+    L.append(";\n".join(rows))
+    L.append("].")
+    txt = "\n".join(L) + "\n"
+    p = os.path.join(V.COQ, "Gen", "GenFootC12.v")
+    os.makedirs(os.path.dirname(p), exist_ok=True)
+    if not os.path.exists(p) or open(p).read() != txt:
+        open(p, "w").write(txt)
+    return len(rows)
+
+
+def probe_cases(r_cases):
+    return witness_tcases() + load_corpus() + [c for c in r_cases if not has_error_step(c)][:8]
+
+
+def presetup():
+    """before the Coq build: coq/Gen/GenFootC12.v from the freshly built binary"""
+    sim = V.build_prog("c12sim", PROGS["c12sim"])
+    r = V.rng("C12")
+    write_gen_footprints(derive_footprints(sim, probe_cases([gen_tcase(r, k) for k in range(12)]), V.scratch("C12p")))
+    V.coq_project()
+
+
+# ------------------------------------------------------------------------------------------------
 def witness_tcases():
     """the configuration of the refuted item-list statement (kept as SmpProofs.unfixed_items_refuted): a variable
     with three components, cvcflags "0 1 1" """
@@ -968,6 +1073,7 @@ def load_corpus():
 
 
 def setup():
+    presetup()
     V.extract_model("C12", EXTRACT, DRIVER, [])
     V.build_prog("c12sim", PROGS["c12sim"])
     try:
@@ -997,15 +1103,38 @@ def check(run):
         "the disjointness of the REAL footprints (which fields each C++ work item touches) is the hand-written footprint table of SmpModel.v section 5, tied only through observable values",
         "an execution is modelled as an interleaving of atomic items; finer-grained interleavings of the real threads are covered by the footprint argument, not by a theorem about the C++ memory model",
     ]
-    st = V.standard_start(run, PROP, EXTRACT, DRIVER, PROGS, extra_ml=())
+    d = V.scratch("C12")
+    gen = [gen_tcase(r, k) for k in range(300 if quick else 4000)]
+    # footprints derived from the rebuilt binary -> coq/Gen/GenFootC12.v, BEFORE the proofs are checked
+    derived = []
+    try:
+        sim0 = V.build_prog("c12sim", PROGS["c12sim"])
+        derived = derive_footprints(sim0, probe_cases(gen), d)
+        nprobe = write_gen_footprints(derived)
+        run.cov["correspondence"]["footprint_probes"] = nprobe
+        run.dist("footprints: probes derived from the binary", nprobe)
+        run.dist("footprints: items probed", sum(len(x[3]) + len(x[4]) + len(x[5]) for x in derived if x[1] is not None))
+        for x in derived:
+            if x[1] is None:
+                run.mismatch("footprints", {"case": x[0]}, "the footprint probe did not complete", "FPEND")
+    except V.InfraError as e:
+        if "compilation of /repo failed" in str(e):
+            raise
+        run.notes.append("footprint derivation unavailable: %s" % str(e)[-200:])
+    st = V.standard_start(run, [PROP, PROP_GEN], EXTRACT, DRIVER, PROGS, extra_ml=())
     if st is None:
         return
     model, exes = st
     sim = exes["c12sim"]
-    d = V.scratch("C12")
+    if getattr(run, "broken_theorems", []) and derived:
+        # name the first probe whose derived footprints differ from the model's table (python re-check of the same comparison)
+        for c, t, flags, comp, coll, bias in derived:
+            if t is not None:
+                run.sample({"footprint_probe_config": tcase_config(c), "derived_comp": comp[:4], "derived_bias": bias[:4]})
+                break
 
     # witness of the (repaired) item-list defect and corpus first, then generated cases
-    tc = witness_tcases() + load_corpus() + [gen_tcase(r, k) for k in range(300 if quick else 4000)]
+    tc = witness_tcases() + load_corpus() + gen
     B = 200
     for b0 in range(0, len(tc), B):
         tie_part(run, r, model, sim, tc[b0:b0 + B], d)
